@@ -663,6 +663,9 @@ def _str_method(I, o, name):
 
     def format(I, a, k):
         if not conc:
+            h = I.E.externals.get("str.format")       # a contract may treat templates as opaque: the hook receives (template, *args), kwargs
+            if h is not None:
+                return h(I, [o] + list(a), k)
             raise OutsideSubset(".format on a symbolic template")
         return format_template(I, o, a, k)
 
